@@ -151,7 +151,7 @@ func genC12(e *emitter, r *rng, tier string) {
 			}
 			last := res[strings.LastIndex(res, ";")+1:]
 			parts := strings.Split(last, "/")
-			if len(parts) != 3 {
+			if len(parts) < 3 {
 				return 0
 			}
 			return atoi(parts[0])
@@ -177,7 +177,20 @@ func genC12(e *emitter, r *rng, tier string) {
 					if isWrite {
 						stmts = append(stmts, "we:0:130")
 					}
+					// every k (quick tier: about 150 of them) and ALWAYS the last few fault points: a
+					// fault while the final bytes (last digit, trailing line feed) are delivered
+					ks := []int{}
 					for k := 0; k <= total+1; k += step {
+						ks = append(ks, k)
+					}
+					if step > 1 {
+						for k := max(total-3, 0); k <= total+1; k++ {
+							if k%step != 0 {
+								ks = append(ks, k)
+							}
+						}
+					}
+					for _, k := range ks {
 						if isWrite {
 							stmts = append(stmts, fmt.Sprintf("fwr:1:%s:%d:%d", o, mode, k))
 						} else {
@@ -227,8 +240,12 @@ func genC12(e *emitter, r *rng, tier string) {
 		bounds = []int{100, 200, 300, 1000, 2500}
 	}
 	for _, b := range bounds {
-		for _, bs := range []int{1, 2, 3, 5, 16} {
-			for _, lay := range []string{"R0.C0.S0", "R10.C5", "R7.C0.S0"} {
+		bss, lays := []int{1, 3, 16}, []string{"R0.C0.S0", "R10.C5"}
+		if tier == "thorough" {
+			bss, lays = []int{1, 2, 3, 5, 16}, []string{"R0.C0.S0", "R10.C5", "R7.C0.S0"}
+		}
+		for _, bs := range bss {
+			for _, lay := range lays {
 				for v := 1; v <= 3; v++ {
 					for mode := 0; mode <= 2; mode++ {
 						if tier == "quick" && (mode+b/100+bs+v)%2 == 1 && lay != "R0.C0.S0" {
